@@ -401,7 +401,22 @@ def gen_integral_ir(repo, res):
 
         def cir(cell, itype, etype, integrand_map, tensor_shape, options, visualise):
             handed.append({"cell": cell, "integral_type": itype, "entity_type": etype, "integrands": {c: dict(d) for c, d in integrand_map.items()}, "tensor_shape": list(tensor_shape)})
-            return {"integrand": {"marker": len(handed)}}
+            # the shape of the real result: per (cell type, rule) a factorisation graph whose nodes carry modified terminals and table references, per cell
+            # type the tables that are stored.  Only the first coefficient has a stored table here; the others have all-ones tables (a DG0 / Real
+            # coefficient), which the kernel reads directly from w without a table
+            n = len(handed)
+            integrand, tables = {}, {}
+            for c, d in integrand_map.items():
+                tables[c] = {f"FE{n}_0": "table"}
+                for r in d:
+                    nodes = {k: {"mt": Node("ModifiedTerminal", terminal=co), "tr": Node("TableRef", name=f"FE{n}_{k}", ttype="varying" if k == 0 else "ones")}
+                             for k, co in enumerate(coefs)}
+                    nodes[len(coefs)] = {"expression": "weight"}
+                    integrand[(c, r)] = {"factorization": Node("ExpressionGraph", nodes=nodes), "modified_arguments": [], "block_contributions": {}}
+            returned.append(integrand)
+            return {"integrand": integrand, "unique_tables": tables, "unique_table_types": {c: {k: "varying" for k in t} for c, t in tables.items()},
+                    "needs_facet_permutations": False}
+        returned = []
         it.overrides["compute_integral_ir"] = _PyCall(cir)
         it.overrides["CommonExpressionIR"] = _PyCall(lambda **k: Node("CommonExpressionIR", **k))
         it.overrides["IntegralIR"] = _PyCall(lambda **k: Node("IntegralIR", **k))
@@ -412,13 +427,13 @@ def gen_integral_ir(repo, res):
                   original_coefficient_positions=[1, 2, 3])
         names = {(4, i): f"integral_{i}" for i in range(len(groups))}
         out = it.call_f(f, [fd, 4, [elP2, elP1, elDG], names, {"part": part, "sum_factorization": False, "table_rtol": 1e-6, "table_atol": 1e-9}, False])
-        return out, handed, args_el
+        return out, handed, args_el, returned
 
     # part="diagonal" applies to bilinear forms only: a linear form or a functional compiled with it must come out as without it
     for label, nargs, part in (("bilinear form", 2, "full"), ("bilinear form, diagonal", 2, "diagonal"), ("linear form", 1, "full"), ("functional", 0, "full"),
                                ("linear form with part=diagonal", 1, "diagonal"), ("functional with part=diagonal", 0, "diagonal")):
         try:
-            out, handed, args_el = run(nargs, part)
+            out, handed, args_el, returned = run(nargs, part)
         except Raised as e:
             res.ob(f"{f.key}:{label}:runs")
             res.fail(f"{f.key}:{label}:runs", f"_compute_integral_ir raises ({e.what}) on the sample {label}", loc)
@@ -477,7 +492,7 @@ def gen_integral_ir(repo, res):
                 got_int[c if str(c).startswith("CellType") else f"CellType.{c}"] = {r.f["name"] if isinstance(r, Node) else r: v for r, v in d.items()}
             if got_int != want_int:
                 msgs.append(f"integrands handed on per (cell type, rule) are {got_int}, expected {want_int}: each rule integrates the sum of exactly its own integrands")
-            if g.get("integrand") != {"marker": gi + 1}:
+            if g.get("integrand") is not returned[gi]:
                 msgs.append("the record does not carry the result computed for its own group (compute_integral_ir's output of another group)")
             if msgs:
                 res.fail(key, f"{label}, integral group {gi} ({t_} on {mesh_.f['name']}, ids {ids}): " + "; ".join(msgs), loc)
